@@ -161,6 +161,18 @@ def has_fact(site: Site, templates: Iterable[Template | str], binds: dict | None
     return None
 
 
+def every_alt_has(site: Site, templates: Iterable[Template | str], binds: dict | None = None) -> bool:
+    """every path class reaching the site carries a fact matching one of the templates (the fact may be
+    spelled differently per path class, e.g. over different definitions of a local)"""
+    ts = [T(t) if isinstance(t, str) else t for t in templates]
+    if not site.state.alts:
+        return False
+    for alt in site.state.alts:
+        if not any(f.kind == "atom" and norm.any_match(ts, f.expr, binds) is not None for f in alt.facts.values()):
+            return False
+    return True
+
+
 def has_forall(
     site: Site,
     body_templates: Iterable[Template | str],
